@@ -52,6 +52,7 @@ type c33Case struct {
 }
 
 type c33Call struct {
+	AtMs     int64    `json:"at_ms"`
 	Peer     int      `json:"peer"`
 	Actors   []string `json:"actors"`
 	Grains   []string `json:"grains"`
@@ -154,6 +155,7 @@ func c33RunWorker(t *testing.T, c c33Case) (out c33Out) {
 	}
 	sys := system.(*actorSystem)
 	var mu sync.Mutex
+	started := time.Now()
 	localFail := c33Set(c.LocalFail)
 	generic := errors.New("registry unavailable")
 
@@ -210,7 +212,7 @@ func c33RunWorker(t *testing.T, c c33Case) (out c33Out) {
 					peer = i
 				}
 			}
-			call := c33Call{Peer: peer}
+			call := c33Call{Peer: peer, AtMs: time.Since(started).Milliseconds()}
 			poison := c33Set(c.Poison[strconv.Itoa(peer)])
 			reported := c33Set(c.Reported[strconv.Itoa(peer)])
 			bad := false
@@ -378,6 +380,26 @@ type c33LeaderOut struct {
 	Err     string       `json:"err"`
 }
 
+type c33LogBuf struct {
+	mu sync.Mutex
+	b  []byte
+}
+
+func (l *c33LogBuf) Write(p []byte) (int, error) {
+	l.mu.Lock()
+	l.b = append(l.b, p...)
+	l.mu.Unlock()
+	return len(p), nil
+}
+func (l *c33LogBuf) tail(n int) string {
+	l.mu.Lock()
+	defer l.mu.Unlock()
+	if len(l.b) > n {
+		return string(l.b[len(l.b)-n:])
+	}
+	return string(l.b)
+}
+
 type verifC33Holder struct {
 	mu    sync.Mutex
 	queue []any
@@ -453,7 +475,24 @@ func c33RunLeader(t *testing.T, sq c33Seq) (out c33LeaderOut) {
 		}
 	}()
 	ctx := context.Background()
-	system, err := NewActorSystem("verifC33-"+strconv.Itoa(sq.N), WithLogger(log.DiscardLogger))
+	var logBuf c33LogBuf
+	var logger log.Logger = log.DiscardLogger
+	if os.Getenv("VERIF_C33_DEBUG") != "" {
+		logger = log.NewSlog(log.DebugLevel, &logBuf)
+		defer func() {
+			if strings.Contains(out.Err, "spawn") || func() bool {
+				for _, a := range out.Applied {
+					if strings.HasPrefix(a.Kind, "spawn-error") {
+						return true
+					}
+				}
+				return false
+			}() {
+				fmt.Printf("==== LOG of sequence %d ====\n%s\n", sq.N, logBuf.tail(400000))
+			}
+		}()
+	}
+	system, err := NewActorSystem("verifC33-"+strconv.Itoa(sq.N), WithLogger(logger))
 	if err != nil {
 		out.Err = err.Error()
 		return out
@@ -502,6 +541,9 @@ func c33RunLeader(t *testing.T, sq c33Seq) (out c33LeaderOut) {
 		out.Err = err.Error()
 		return out
 	}
+	// give the guardians time to handle their PostStart: a Terminated (system mailbox) that overtakes the
+	// PostStart (user mailbox) of the user guardian makes it log through a nil logger and takes the system down
+	time.Sleep(150 * time.Millisecond)
 	_ = stoppedPID.Shutdown(ctx)
 	consumer, err := system.Subscribe()
 	if err != nil {
@@ -576,11 +618,11 @@ func c33RunLeader(t *testing.T, sq c33Seq) (out c33LeaderOut) {
 				role := "nobody"
 				ps.Actors["u"] = &internalpb.Actor{Address: address.New("u"+strconv.Itoa(nextJob), "test", "10.0.1."+strconv.Itoa(op.Addr+1), 9000).String(), Relocatable: true, Role: &role}
 			}
-			jobOf[ps] = nextJob
-			nextJob++
 			ap.Addr, ap.TellOk = op.Addr, op.TellOk
 			// the three statements of dispatchDerivedRebalance / handleNodeLeftEvent after the snapshot is known
 			if sys.beginRelocation(addrKey(op.Addr), ps) {
+				jobOf[ps] = nextJob // snapshot identities are numbered in the order they get registered
+				nextJob++
 				target := holderPID
 				if !op.TellOk {
 					target = stoppedPID
@@ -613,7 +655,13 @@ func c33RunLeader(t *testing.T, sq c33Seq) (out c33LeaderOut) {
 					// the relocator's own PID is not part of a running tree: ctx.Spawn fails
 					self = stoppedPID
 				}
-				manager.Receive(newReceiveContext(ctx, senderPID, self, rb))
+				rctx := newReceiveContext(ctx, senderPID, self, rb)
+				manager.Receive(rctx)
+				if op.SpawnOk {
+					if e := rctx.getError(); e != nil {
+						ap.Kind = fmt.Sprintf("spawn-error: %v (holder running=%v suspended=%v stopping-state; system running=%v stopping=%v; processed=%d)", e, holderPID.IsRunning(), holderPID.IsSuspended(), system.Running(), sys.isStopping(), holderPID.ProcessedCount())
+					}
+				}
 				if _, tracked := manager.workers[fmt.Sprintf("%s-%d", reservedName(relocationWorkerType), manager.sequence)]; tracked {
 					spawned = true
 					if !c33Wait(func() bool { return gate.count() > before }) {
